@@ -77,6 +77,9 @@ func rlpSnapshot(t types.Type, v value) value {
 		return out
 	case *types.Slice:
 		s := v.([]value)
+		if s == nil {
+			return []value(nil)
+		}
 		out := make([]value, len(s))
 		for i := range s {
 			out[i] = rlpSnapshot(u.Elem(), s[i])
@@ -97,6 +100,29 @@ func rlpSnapshot(t types.Type, v value) value {
 // rlpAssign writes snapshot src (of type st) into the value at dst (type dt),
 // following rlp's decoding rules for nil pointers and empty slices.
 func rlpAssign(dt types.Type, dst *value, st types.Type, src value, nilTag bool) {
+	boxAssign(dt, dst, st, src, nilTag, false)
+}
+
+// jsonAssign is the same with JSON's rules: nil pointers and nil slices stay nil.
+func jsonAssign(dt types.Type, dst *value, st types.Type, src value) {
+	boxAssign(dt, dst, st, src, true, true)
+}
+
+func boxAssign(dt types.Type, dst *value, st types.Type, src value, nilTag, js bool) {
+	if js {
+		nilTag = true
+	}
+	rlpAssign := func(dt types.Type, dst *value, st types.Type, src value, nilTag bool) {
+		boxAssign(dt, dst, st, src, nilTag, js)
+	}
+	if js {
+		if s, ok := src.([]value); ok && s == nil {
+			if _, isSlice := dt.Underlying().(*types.Slice); isSlice {
+				*dst = []value(nil)
+				return
+			}
+		}
+	}
 	if isBigIntType(dt) {
 		if b, ok := src.(bigInt); ok {
 			*dst = b
